@@ -28,16 +28,43 @@ def param_blind_caches(ctx, modname, only_prefix=None):
             continue
         looked += 1
         cfg = cfg_of(fn)
+        feeds = set()  # attributes of self that the returned value is computed from
+        for n in cfg.returns():
+            if n.ast is not None and n.ast.value is not None and not (isinstance(n.ast.value, ast.Constant)):
+                for o in origins(fn, n.id, n.ast.value):
+                    if o.startswith("attr:self."):
+                        feeds.add(o[len("attr:self."):].split(".")[0])
+        # `if self.A is None: self.A = f(param)` (any spelling of "not set yet": is None, not self.A, hasattr/getattr): the value
+        # computed from the first call's argument stands in for every later argument, whether it is returned or used further on
+        for st in ast.walk(fn):
+            if not isinstance(st, ast.If):
+                continue
+            attrs = {x.attr for x in ast.walk(st.test) if isinstance(x, ast.Attribute) and dotted(x.value) == "self"}
+            attrs |= {x.args[1].value for x in ast.walk(st.test) if isinstance(x, ast.Call) and isinstance(x.func, ast.Name) and x.func.id in ("getattr", "hasattr")
+                      and len(x.args) >= 2 and isinstance(x.args[1], ast.Constant) and isinstance(x.args[1].value, str) and dotted(x.args[0]) == "self"}
+            if not attrs:
+                continue
+            for arm in (st.body, st.orelse):
+                for n in cfg.stmts(("stmt",)):
+                    a = n.ast
+                    if not (isinstance(a, ast.Assign) and any(a is y for b in arm for y in ast.walk(b))):
+                        continue
+                    for tg in a.targets:
+                        if isinstance(tg, ast.Attribute) and dotted(tg.value) == "self" and tg.attr in attrs and tg.attr in feeds:
+                            at = origins(fn, n.id, a.value)
+                            dep = [p for p in ps[1:] if ("param:" + p) in at]
+                            # the test must be about this attribute being unset, not about a parameter as well (`if x and self.a is None` keyed on x is still blind)
+                            if dep and not any(h[2] == tg.attr and h[1] is fn for h in hits):
+                                hits.append((mod, fn, tg.attr, dep[0], n))
+        # early-return form: `if self.A is not None: return self.A` ... `self.A = f(param)` anywhere later
         returned = set()
         for n in cfg.returns():
             v = n.ast.value if n.ast is not None else None
             if isinstance(v, ast.Attribute) and dotted(v.value) == "self":
                 returned.add(v.attr)
-        if not returned:
-            continue
         for n in cfg.stmts(("stmt",)):
             a = n.ast
-            if isinstance(a, ast.Assign):
+            if isinstance(a, ast.Assign) and returned:
                 for tg in a.targets:
                     if isinstance(tg, ast.Attribute) and dotted(tg.value) == "self" and tg.attr in returned:
                         at = origins(fn, n.id, a.value)
@@ -46,7 +73,7 @@ def param_blind_caches(ctx, modname, only_prefix=None):
                                          or (isinstance(x, ast.Call) and isinstance(x.func, ast.Name) and x.func.id in ("getattr", "hasattr") and len(x.args) >= 2
                                              and isinstance(x.args[1], ast.Constant) and x.args[1].value == tg.attr)
                                          for x in ast.walk(t.ast)) for t in cfg.tests())
-                        if dep and tested:
+                        if dep and tested and not any(h[2] == tg.attr and h[1] is fn for h in hits):
                             hits.append((mod, fn, tg.attr, dep[0], n))
     return looked, hits
 
